@@ -1,7 +1,599 @@
-//! C17 — not implemented yet.
+//! C17 — corrupted index files are detected.
+//! Engine: corruptmc — small indexes built on InMemoryStorage; for every file, every byte offset x
+//! xor masks {0x01, 0x80, 0xFF} and every truncation length, a fresh InMemoryStorage is populated
+//! with the (one-file-mutated) file set and opened. Oracle: open / reader() / every probe search
+//! returns Err somewhere, or all probe results are identical to the unmutated baseline; never a
+//! panic. For wal.log: Wal::last_pending_ops of the mutant is a prefix of the baseline list and a
+//! new writer + commit yields exactly the contents of some intact prefix of the pending log.
+
+use std::collections::{BTreeMap, BTreeSet};
+use std::path::{Path, PathBuf};
+use std::sync::atomic::{AtomicBool, AtomicU64, Ordering};
+use std::sync::Arc;
+
+use parking_lot::Mutex;
+use rayon::prelude::*;
+use serde_json::{json, Value};
+
+use searchlite_core::api::types::StorageType;
+use searchlite_core::api::Index;
+use searchlite_core::wal::Wal;
+use searchlite_core::storage::{InMemoryStorage, Storage};
+
+use vcore::ev::Reporter;
+use vcore::inp::approx;
+use vcore::world::*;
+
 use crate::Ctx;
 
-pub fn run(_ctx: &Ctx) -> i32 {
-  eprintln!("C17: check not implemented");
-  2
+// ---------------------------------------------------------------------------------------------
+// Worlds
+
+fn schema_flat() -> Value {
+  vcore::inp::schema_text_kw_num()
+}
+
+fn schema_nested() -> Value {
+  json!({"doc_id_field": "_id",
+    "text_fields": [{"name": "body", "analyzer": "default", "stored": true, "indexed": true}],
+    "keyword_fields": [{"name": "kw", "stored": true, "indexed": true, "fast": true}],
+    "numeric_fields": [{"name": "n", "i64": true, "fast": true, "stored": true},
+                       {"name": "f", "i64": false, "fast": true, "stored": true}],
+    "nested_fields": [
+      {"name": "c", "fields": [
+        {"type": "keyword", "name": "a", "stored": true, "indexed": true, "fast": true},
+        {"type": "numeric", "name": "v", "i64": true, "fast": true, "stored": true, "nullable": true},
+        {"type": "object", "name": "r", "nullable": true, "fields": [
+          {"type": "keyword", "name": "t", "stored": true, "indexed": true, "fast": true}]}]}]})
+}
+
+/// world JSON: {name, schema_json, commits: [[doc..]..], deleted: [id..], pending: [{"add": doc} | {"delete": id}], probes: [request..]}
+fn worlds(quick: bool) -> Vec<Value> {
+  let flat_probes = json!([
+    {"query": {"type": "match_all"}, "limit": 100, "return_stored": true},
+    {"query": "a", "limit": 100, "return_stored": false},
+    {"query": {"type": "match_all"}, "limit": 100, "filter": {"KeywordEq": {"field": "kw", "value": "x"}}, "sort": [{"field": "n", "order": "asc"}],
+     "aggs": {"k": {"type": "terms", "field": "kw"}, "s": {"type": "stats", "field": "n"}}}
+  ]);
+  let w1 = json!({"name": "1 segment, 2 docs, 2 pending WAL ops", "schema_json": schema_flat(),
+    "commits": [[{"_id": "A", "body": "a b", "kw": "x", "n": 1, "f": 0.5}, {"_id": "B", "body": "a", "kw": "y", "n": 2, "f": 1.5}]],
+    "deleted": [], "pending": [{"add": {"_id": "C", "body": "a c", "kw": "x", "n": 3}}, {"delete": "A"}], "probes": flat_probes});
+  let w2 = json!({"name": "2 segments + tombstone + 3 pending WAL ops", "schema_json": schema_flat(),
+    "commits": [[{"_id": "A", "body": "a b", "kw": "x", "n": 1, "f": 0.5}, {"_id": "B", "body": "a", "kw": "y", "n": 2, "f": 1.5}],
+                [{"_id": "C", "body": "b c a", "kw": ["x", "y"], "n": [1, 2], "f": [0.5, 2.5]}, {"_id": "D", "body": "c", "kw": "x", "n": 4}]],
+    "deleted": ["B"], "pending": [{"add": {"_id": "E", "body": "a e", "kw": "y", "n": 5}}, {"delete": "C"}, {"add": {"_id": "A", "body": "z", "kw": "x", "n": 9}}], "probes": flat_probes});
+  if quick {
+    return vec![w1, w2];
+  }
+  let w3 = json!({"name": "nested + multi-valued fast fields, 1 segment, 1 pending WAL op", "schema_json": schema_nested(),
+    "commits": [[{"_id": "A", "body": "a b", "kw": ["x", "y"], "n": [1, 2], "f": [0.5, 2.5], "c": [{"a": "p", "v": 1, "r": [{"t": "u"}, {"t": "w"}]}, {"a": "q", "r": {"t": "w"}}]},
+                 {"_id": "B", "body": "a", "kw": "x", "n": 3, "c": {"a": "q", "v": 7}},
+                 {"_id": "C", "body": "b", "kw": "y", "f": 1.5}]],
+    "deleted": [], "pending": [{"add": {"_id": "D", "body": "a d", "c": [{"a": "p"}]}}],
+    "probes": [
+      {"query": {"type": "match_all"}, "limit": 100, "return_stored": true},
+      {"query": "a", "limit": 100, "return_stored": false},
+      {"query": {"type": "match_all"}, "limit": 100, "filter": {"Nested": {"path": "c", "filter": {"KeywordEq": {"field": "a", "value": "q"}}}}, "sort": [{"field": "n", "order": "desc"}],
+       "aggs": {"k": {"type": "terms", "field": "kw"}, "s": {"type": "stats", "field": "f"}}}
+    ]});
+  let w4 = json!({"name": "3 segments with upserts (tombstones from re-added ids), empty WAL", "schema_json": schema_flat(),
+    "commits": [[{"_id": "A", "body": "a b", "kw": "x", "n": 1, "f": 0.5}, {"_id": "B", "body": "a", "kw": "y", "n": 2}],
+                [{"_id": "A", "body": "a a c", "kw": "y", "n": 11}, {"_id": "C", "body": "c", "kw": "x", "n": 3}],
+                [{"_id": "B", "body": "b a", "kw": "x", "n": 12, "f": 3.5}]],
+    "deleted": [], "pending": [], "probes": flat_probes});
+  vec![w1, w2, w3, w4]
+}
+
+/// The byte image of an index: virtual root + (relative label, absolute path, bytes).
+#[derive(Clone)]
+struct Image {
+  root: PathBuf,
+  files: Vec<(String, PathBuf, Vec<u8>)>,
+  /// wal.log length after each pending op (record boundaries), starting with 0
+  wal_boundaries: Vec<usize>,
+}
+
+fn hex(b: &[u8]) -> String {
+  let mut s = String::with_capacity(b.len() * 2);
+  for x in b {
+    s.push_str(&format!("{x:02x}"));
+  }
+  s
+}
+
+fn unhex(s: &str) -> Vec<u8> {
+  (0..s.len() / 2).map(|i| u8::from_str_radix(&s[2 * i..2 * i + 2], 16).unwrap()).collect()
+}
+
+impl Image {
+  fn to_json(&self) -> Value {
+    json!({"root": self.root.to_string_lossy(), "wal_boundaries": self.wal_boundaries,
+      "files": self.files.iter().map(|(l, p, b)| json!({"label": l, "path": p.to_string_lossy(), "hex": hex(b)})).collect::<Vec<_>>()})
+  }
+  fn from_json(v: &Value) -> Image {
+    Image {
+      root: PathBuf::from(v["root"].as_str().unwrap()),
+      wal_boundaries: v["wal_boundaries"].as_array().unwrap().iter().map(|x| x.as_u64().unwrap() as usize).collect(),
+      files: v["files"].as_array().unwrap().iter().map(|f| (f["label"].as_str().unwrap().to_string(), PathBuf::from(f["path"].as_str().unwrap()), unhex(f["hex"].as_str().unwrap()))).collect(),
+    }
+  }
+  fn storage_with(&self, file_idx: Option<usize>, replacement: &[u8]) -> Arc<InMemoryStorage> {
+    let st = Arc::new(InMemoryStorage::new(self.root.clone()));
+    for (i, (_, p, b)) in self.files.iter().enumerate() {
+      let data: &[u8] = if Some(i) == file_idx { replacement } else { b };
+      st.write_all(p, data).expect("populate storage");
+    }
+    st
+  }
+}
+
+fn build_image(w: &Value) -> Image {
+  let sch = schema(w["schema_json"].clone());
+  let (idx, storage, root) = mem_index_opts(&sch, true);
+  for commit in w["commits"].as_array().unwrap() {
+    let mut wr = idx.writer().expect("writer");
+    for d in commit.as_array().unwrap() {
+      wr.add_document(&doc(d)).expect("add");
+    }
+    wr.commit().expect("commit");
+  }
+  let del: Vec<&str> = w["deleted"].as_array().unwrap().iter().map(|x| x.as_str().unwrap()).collect();
+  if !del.is_empty() {
+    delete_commit(&idx, &del);
+  }
+  let wal_path = root.join("wal.log");
+  let mut wal_boundaries = vec![0usize];
+  {
+    let mut wr = idx.writer().expect("writer");
+    for op in w["pending"].as_array().unwrap() {
+      if let Some(d) = op.get("add") {
+        wr.add_document(&doc(d)).expect("pending add");
+      } else {
+        wr.delete_document(op["delete"].as_str().unwrap()).expect("pending delete");
+      }
+      wal_boundaries.push(storage.read_to_end(&wal_path).expect("wal").len());
+    }
+  }
+  let manifest = idx.manifest();
+  let mut files: Vec<(String, PathBuf)> = vec![("MANIFEST.json".into(), root.join("MANIFEST.json")), ("wal.log".into(), wal_path)];
+  for (i, seg) in manifest.segments.iter().enumerate() {
+    for (kind, p) in [("meta", &seg.paths.meta), ("terms", &seg.paths.terms), ("post", &seg.paths.postings), ("docs", &seg.paths.docstore), ("fast", &seg.paths.fast)] {
+      files.push((format!("seg{i}.{kind}"), PathBuf::from(p)));
+    }
+  }
+  let files = files
+    .into_iter()
+    .map(|(l, p)| {
+      let b = storage.read_to_end(&p).unwrap_or_else(|e| vcore::ev::machinery_failure(&format!("C17: cannot read {p:?}: {e:#}")));
+      (l, p, b)
+    })
+    .collect();
+  Image { root, files, wal_boundaries }
+}
+
+// ---------------------------------------------------------------------------------------------
+// Observation
+
+fn open_image(root: &Path, st: Arc<InMemoryStorage>) -> anyhow::Result<Index> {
+  Index::open_with_storage(opts(root, StorageType::InMemory), st as Arc<dyn Storage>)
+}
+
+/// Normalized result of one probe.
+fn normalize(res: &searchlite_core::api::SearchResult) -> Value {
+  json!({
+    "total": res.total_hits_estimate,
+    "hits": res.hits.iter().map(|h| json!({"id": h.doc_id, "score": h.score, "fields": h.fields, "snippet": h.snippet})).collect::<Vec<_>>(),
+    "next_cursor": res.next_cursor.is_some(),
+    "aggs": serde_json::to_value(&res.aggregations).unwrap_or(Value::Null),
+  })
+}
+
+fn same_probe(a: &Value, b: &Value) -> bool {
+  if a["total"] != b["total"] || a["next_cursor"] != b["next_cursor"] || a["aggs"] != b["aggs"] {
+    return false;
+  }
+  let (ha, hb) = (a["hits"].as_array().unwrap(), b["hits"].as_array().unwrap());
+  ha.len() == hb.len()
+    && ha.iter().zip(hb).all(|(x, y)| {
+      x["id"] == y["id"] && x["fields"] == y["fields"] && x["snippet"] == y["snippet"] && approx(x["score"].as_f64().unwrap_or(f64::NAN) as f32, y["score"].as_f64().unwrap_or(f64::NAN) as f32, 1e-5)
+    })
+}
+
+#[derive(Debug, Clone)]
+enum Seen {
+  /// Err at the named stage: the corruption was detected
+  Detected(String),
+  Panic(String),
+  Results(Vec<Value>),
+}
+
+fn observe(img: &Image, st: Arc<InMemoryStorage>, probes: &[Value]) -> Seen {
+  let root = img.root.clone();
+  let r = vcore::catch(move || -> Result<Vec<Value>, String> {
+    let idx = open_image(&root, st).map_err(|e| format!("open: {e:#}"))?;
+    let reader = idx.reader().map_err(|e| format!("reader: {e:#}"))?;
+    let mut out = Vec::new();
+    for (i, p) in probes.iter().enumerate() {
+      let res = reader.search(&req(p.clone())).map_err(|e| format!("search probe {i}: {e:#}"))?;
+      out.push(normalize(&res));
+    }
+    Ok(out)
+  });
+  match r {
+    Err(p) => Seen::Panic(p),
+    Ok(Err(e)) => Seen::Detected(e),
+    Ok(Ok(v)) => Seen::Results(v),
+  }
+}
+
+fn pending_strings(st: &InMemoryStorage, root: &Path) -> Result<Result<Vec<String>, String>, String> {
+  vcore::catch(|| Wal::last_pending_ops(st, &root.join("wal.log")).map(|v| v.iter().map(|e| format!("{e:?}")).collect::<Vec<_>>()).map_err(|e| format!("{e:#}")))
+}
+
+/// writer() (replays the log) + commit + committed contents.
+fn recover_contents(img: &Image, st: Arc<InMemoryStorage>) -> Result<Result<BTreeMap<String, Value>, String>, String> {
+  let root = img.root.clone();
+  vcore::catch(move || -> Result<BTreeMap<String, Value>, String> {
+    let idx = open_image(&root, st).map_err(|e| format!("open: {e:#}"))?;
+    let mut w = idx.writer().map_err(|e| format!("writer: {e:#}"))?;
+    w.commit().map_err(|e| format!("commit: {e:#}"))?;
+    contents(&idx).map_err(|e| format!("contents: {e:#}"))
+  })
+}
+
+struct Baseline {
+  results: Vec<Value>,
+  pending: Vec<String>,
+  /// committed contents after recovering exactly the first k pending ops, k = 0..=len
+  prefix_contents: Vec<BTreeMap<String, Value>>,
+  manifest: Value,
+}
+
+fn baseline(img: &Image, probes: &[Value]) -> Result<Baseline, String> {
+  let results = match observe(img, img.storage_with(None, &[]), probes) {
+    Seen::Results(v) => v,
+    other => return Err(format!("baseline image does not open/search cleanly: {other:?}")),
+  };
+  let st = img.storage_with(None, &[]);
+  let pending = pending_strings(&st, &img.root).map_err(|p| format!("baseline wal panic {p}"))??;
+  if pending.len() + 1 != img.wal_boundaries.len() {
+    return Err(format!("baseline WAL has {} pending ops, expected {}", pending.len(), img.wal_boundaries.len() - 1));
+  }
+  let wal_idx = img.files.iter().position(|f| f.0 == "wal.log").unwrap();
+  let wal = img.files[wal_idx].2.clone();
+  let mut prefix_contents = Vec::new();
+  for &b in &img.wal_boundaries {
+    let st = img.storage_with(Some(wal_idx), &wal[..b]);
+    prefix_contents.push(recover_contents(img, st).map_err(|p| format!("baseline recovery panic {p}"))??);
+  }
+  let manifest: Value = serde_json::from_slice(&img.files[0].2).map_err(|e| format!("baseline manifest: {e}"))?;
+  Ok(Baseline { results, pending, prefix_contents, manifest })
+}
+
+// ---------------------------------------------------------------------------------------------
+// Mutations
+
+#[derive(Clone, Debug)]
+enum Mutation {
+  Xor { file: usize, offset: usize, mask: u8 },
+  Truncate { file: usize, len: usize },
+}
+
+impl Mutation {
+  fn file(&self) -> usize {
+    match self {
+      Mutation::Xor { file, .. } | Mutation::Truncate { file, .. } => *file,
+    }
+  }
+  fn apply(&self, img: &Image) -> Vec<u8> {
+    let mut b = img.files[self.file()].2.clone();
+    match self {
+      Mutation::Xor { offset, mask, .. } => b[*offset] ^= mask,
+      Mutation::Truncate { len, .. } => b.truncate(*len),
+    }
+    b
+  }
+  fn to_json(&self, img: &Image) -> Value {
+    let label = &img.files[self.file()].0;
+    match self {
+      Mutation::Xor { offset, mask, .. } => json!({"file": label, "xor": {"offset": offset, "mask": mask}}),
+      Mutation::Truncate { len, .. } => json!({"file": label, "truncate_to": len}),
+    }
+  }
+  fn from_json(img: &Image, v: &Value) -> Mutation {
+    let file = img.files.iter().position(|f| json!(f.0) == v["file"]).expect("file label");
+    if let Some(x) = v.get("xor") {
+      Mutation::Xor { file, offset: x["offset"].as_u64().unwrap() as usize, mask: x["mask"].as_u64().unwrap() as u8 }
+    } else {
+      Mutation::Truncate { file, len: v["truncate_to"].as_u64().unwrap() as usize }
+    }
+  }
+}
+
+fn masks(quick: bool) -> Vec<u8> {
+  if quick {
+    vec![0x01, 0x80, 0xFF]
+  } else {
+    vec![0x01, 0x02, 0x04, 0x08, 0x10, 0x20, 0x40, 0x80, 0xFF]
+  }
+}
+
+fn all_mutations(img: &Image, quick: bool) -> Vec<Mutation> {
+  let mut out = Vec::new();
+  for (fi, (_, _, b)) in img.files.iter().enumerate() {
+    for offset in 0..b.len() {
+      for mask in masks(quick) {
+        out.push(Mutation::Xor { file: fi, offset, mask });
+      }
+    }
+    for len in 0..b.len() {
+      out.push(Mutation::Truncate { file: fi, len });
+    }
+  }
+  out
+}
+
+/// First differing location between two JSON values, array indices written as [].
+fn json_diff_path(a: &Value, b: &Value, path: &str) -> Option<String> {
+  match (a, b) {
+    (Value::Object(x), Value::Object(y)) => {
+      for (k, va) in x {
+        let p = if path.is_empty() { k.clone() } else { format!("{path}.{k}") };
+        match y.get(k) {
+          None => return Some(format!("{p} (key renamed)")),
+          Some(vb) => {
+            if let Some(d) = json_diff_path(va, vb, &p) {
+              return Some(d);
+            }
+          }
+        }
+      }
+      for k in y.keys() {
+        if !x.contains_key(k) {
+          return Some(format!("{path}.{k} (key added)"));
+        }
+      }
+      None
+    }
+    (Value::Array(x), Value::Array(y)) => {
+      if x.len() != y.len() {
+        return Some(format!("{path}[] (length)"));
+      }
+      x.iter().zip(y).find_map(|(va, vb)| json_diff_path(va, vb, &format!("{path}[]")))
+    }
+    _ => {
+      if a == b {
+        None
+      } else {
+        Some(path.to_string())
+      }
+    }
+  }
+}
+
+/// Signature for an undetected MANIFEST.json corruption: the manifest carries no checksum, so any
+/// flip that keeps it parseable is loaded as is. Keyed by the JSON location that changed.
+fn manifest_signature(path: &str) -> Option<&'static str> {
+  let p = path.split(' ').next().unwrap_or("");
+  let known: [(&str, &'static str); 8] = [
+    ("segments[].doc_count", "C17-manifest-unchecksummed-doc_count"),
+    ("segments[].deleted_docs", "C17-manifest-unchecksummed-deleted_docs"),
+    ("segments[].deleted_docs[]", "C17-manifest-unchecksummed-deleted_docs"),
+    ("segments[].max_doc_id", "C17-manifest-unchecksummed-max_doc_id"),
+    ("segments[].generation", "C17-manifest-unchecksummed-generation"),
+    ("segments[].avg_field_lengths", "C17-manifest-unchecksummed-avg_field_lengths"),
+    ("segments[].blockmax", "C17-manifest-unchecksummed-blockmax"),
+    ("segments[].id", "C17-manifest-unchecksummed-segment-id"),
+  ];
+  for (k, s) in known {
+    if p == k {
+      return Some(s);
+    }
+  }
+  if p.starts_with("schema.") || p == "schema" {
+    return Some("C17-manifest-unchecksummed-schema");
+  }
+  None
+}
+
+struct Failure {
+  sig: Option<&'static str>,
+  what: String,
+  class: String,
+}
+
+/// Evaluate one mutant. Returns (outcome class for coverage, failure).
+fn evaluate(img: &Image, base: &Baseline, probes: &[Value], m: &Mutation) -> (String, Option<Failure>) {
+  let label = img.files[m.file()].0.clone();
+  let kind = if label == "MANIFEST.json" {
+    "manifest".to_string()
+  } else if label == "wal.log" {
+    "wal".to_string()
+  } else {
+    label.split('.').nth(1).unwrap_or("?").to_string()
+  };
+  let bytes = m.apply(img);
+  let seen = observe(img, img.storage_with(Some(m.file()), &bytes), probes);
+  let mut failure: Option<Failure> = None;
+  let class;
+  match &seen {
+    Seen::Detected(stage) => {
+      class = format!("detected@{}", stage.split(':').next().unwrap_or("?").split(' ').next().unwrap_or("?"));
+    }
+    Seen::Panic(p) => {
+      class = "panic".to_string();
+      failure = Some(Failure { sig: None, what: format!("open/reader/search panicked: {p}"), class: format!("{kind}-panic") });
+    }
+    Seen::Results(v) => {
+      let diff = v.iter().zip(&base.results).position(|(a, b)| !same_probe(a, b));
+      match diff {
+        None => class = "identical".to_string(),
+        Some(i) => {
+          class = "silently-different".to_string();
+          let (sig, loc) = if kind == "manifest" {
+            match serde_json::from_slice::<Value>(&bytes).ok().and_then(|mv| json_diff_path(&base.manifest, &mv, "")) {
+              Some(p) => (manifest_signature(&p), format!(" (manifest location changed: {p})")),
+              None => (None, String::new()),
+            }
+          } else {
+            (None, String::new())
+          };
+          failure = Some(Failure {
+            sig,
+            what: format!("index opens and searches without error but probe {i} {} returns {} instead of the baseline {}{loc}", probes[i], v[i], base.results[i]),
+            class: format!("{kind}-silent{}", loc),
+          });
+        }
+      }
+    }
+  }
+  if kind == "wal" && failure.is_none() {
+    let st = img.storage_with(Some(m.file()), &bytes);
+    match pending_strings(&st, &img.root) {
+      Err(p) => failure = Some(Failure { sig: None, what: format!("Wal::last_pending_ops panicked: {p}"), class: "wal-panic".into() }),
+      Ok(Err(_)) => {}
+      Ok(Ok(list)) => {
+        if list.len() > base.pending.len() || list.iter().zip(&base.pending).any(|(a, b)| a != b) {
+          failure = Some(Failure { sig: None, what: format!("Wal::last_pending_ops returned {list:?}, which is not a prefix of the baseline pending list {:?}", base.pending), class: "wal-not-prefix".into() });
+        }
+      }
+    }
+    if failure.is_none() {
+      match recover_contents(img, img.storage_with(Some(m.file()), &bytes)) {
+        Err(p) => failure = Some(Failure { sig: None, what: format!("writer()+commit on the corrupted log panicked: {p}"), class: "wal-panic".into() }),
+        Ok(Err(_)) => {}
+        Ok(Ok(c)) => {
+          if !base.prefix_contents.iter().any(|pc| *pc == c) {
+            failure = Some(Failure {
+              sig: None,
+              what: format!("a new writer + commit on the corrupted log committed {:?}, which is not what any intact prefix of the pending log yields {:?}", c.keys().collect::<Vec<_>>(), base.prefix_contents.iter().map(|p| p.keys().cloned().collect::<Vec<_>>()).collect::<Vec<_>>()),
+              class: "wal-recovery-not-prefix".into(),
+            });
+          }
+        }
+      }
+    }
+  }
+  (format!("{kind}:{class}"), failure)
+}
+
+pub fn run(ctx: &Ctx) -> i32 {
+  let mut rep = Reporter::new("C17", ctx.tier, "exploration");
+  let quick = ctx.tier.is_quick();
+  if let Some(path) = &ctx.replay {
+    rep.set_replaying(true);
+    let v: Value = serde_json::from_slice(&std::fs::read(path).expect("replay file")).expect("json");
+    let cs = &v["case"];
+    let img = Image::from_json(&cs["image"]);
+    let probes: Vec<Value> = cs["world"]["probes"].as_array().cloned().unwrap_or_default();
+    let base = baseline(&img, &probes).unwrap_or_else(|e| vcore::ev::machinery_failure(&format!("C17 replay: {e}")));
+    let m = Mutation::from_json(&img, &cs["mutation"]);
+    let once = || evaluate(&img, &base, &probes, &m).1.map(|f| f.what);
+    let (a, b) = (once(), once());
+    if a.is_some() != b.is_some() {
+      vcore::ev::machinery_failure("NONDETERMINISM on replay");
+    }
+    return match a {
+      Some(w) => {
+        println!("VIOLATION property=C17 replay={path}\n  what: {w}");
+        1
+      }
+      None => {
+        println!("replay: no violation");
+        0
+      }
+    };
+  }
+
+  let deadline = if quick { 30.0 } else { 840.0 };
+  let timed_out = AtomicBool::new(false);
+  let evals = AtomicU64::new(0);
+  let outcome_counts: Mutex<BTreeMap<String, u64>> = Mutex::new(BTreeMap::new());
+  let failure_classes: Mutex<BTreeMap<String, u64>> = Mutex::new(BTreeMap::new());
+  let mut world_stats = Vec::new();
+  let mut firsts: Vec<(Option<&'static str>, String, Value)> = Vec::new();
+  let mut rest: Vec<(Option<&'static str>, String, Value)> = Vec::new();
+  let mut nontrivial = 0u64;
+  for w in worlds(quick) {
+    let img = build_image(&w);
+    let probes: Vec<Value> = w["probes"].as_array().cloned().unwrap();
+    let base = baseline(&img, &probes).unwrap_or_else(|e| vcore::ev::machinery_failure(&format!("C17 world {}: {e}", w["name"])));
+    // sanity: the baseline match_all must list exactly the live committed ids
+    let mut want: BTreeSet<String> = w["commits"].as_array().unwrap().iter().flat_map(|c| c.as_array().unwrap().iter().map(|d| d["_id"].as_str().unwrap().to_string())).collect();
+    for d in w["deleted"].as_array().unwrap() {
+      want.remove(d.as_str().unwrap());
+    }
+    let got: BTreeSet<String> = base.results[0]["hits"].as_array().unwrap().iter().map(|h| h["id"].as_str().unwrap().to_string()).collect();
+    if want != got || base.results[1]["hits"].as_array().unwrap().is_empty() {
+      vcore::ev::machinery_failure(&format!("C17 world {}: baseline probes do not see the committed documents ({got:?} vs {want:?})", w["name"]));
+    }
+    let muts = all_mutations(&img, quick);
+    world_stats.push(json!({"world": w["name"], "files": img.files.iter().map(|f| json!({"file": f.0, "bytes": f.2.len()})).collect::<Vec<_>>(), "mutants": muts.len()}));
+    let results: Vec<Option<Failure>> = muts
+      .par_iter()
+      .map(|m| {
+        if rep.elapsed_s() > deadline {
+          timed_out.store(true, Ordering::Relaxed);
+          return None;
+        }
+        let (class, failure) = evaluate(&img, &base, &probes, m);
+        evals.fetch_add(1, Ordering::Relaxed);
+        *outcome_counts.lock().entry(class).or_insert(0) += 1;
+        if !rep.sample_full() && matches!(m, Mutation::Xor { offset: 40, .. }) {
+          rep.sample(json!({"world": w["name"], "mutation": m.to_json(&img), "failed": failure.is_some()}));
+        }
+        failure
+      })
+      .collect();
+    nontrivial += muts.len() as u64;
+    for (m, f) in muts.iter().zip(results) {
+      if let Some(f) = f {
+        let key = format!("{} [{}]", f.class, f.sig.unwrap_or("-"));
+        let mut fc = failure_classes.lock();
+        let n = fc.entry(key).or_insert(0);
+        *n += 1;
+        let item = (
+          f.sig,
+          format!("world [{}: commits {} deleted {} pending {}] mutation {} : {}", w["name"].as_str().unwrap_or(""), w["commits"], w["deleted"], w["pending"], m.to_json(&img), f.what),
+          json!({"engine": "corruptmc", "world": w, "image": img.to_json(), "mutation": m.to_json(&img)}),
+        );
+        if *n == 1 {
+          firsts.push(item);
+        } else {
+          rest.push(item);
+        }
+      }
+    }
+  }
+  // the first witness of every failure class first, then the rest in enumeration order
+  for (sig, what, case) in firsts.into_iter().chain(rest) {
+    rep.fail(sig, &what, case);
+  }
+  rep.add_evals(evals.load(Ordering::Relaxed));
+  let to = timed_out.load(Ordering::Relaxed);
+  let oc = outcome_counts.lock().clone();
+  let distinct: BTreeSet<&str> = oc.keys().map(|k| k.split(':').nth(1).unwrap_or("")).collect();
+  if distinct.len() < 2 {
+    vcore::ev::machinery_failure("C17: fewer than 2 distinct outcomes observed (vacuous)");
+  }
+  let cov = vcore::cov! {
+    "distinct_nontrivial" => nontrivial,
+    "rule" => "mutants = per world, for every index file (MANIFEST.json, wal.log, and the meta/terms/post/docs/fast file of every segment) every byte offset x xor mask (quick {0x01,0x80,0xFF}; thorough every single-bit mask and 0xFF) and every truncation length 0..len-1; every mutant changes exactly one file and is non-trivial (its bytes differ from the committed image). Each is loaded into a fresh InMemoryStorage and opened; probes = match_all with stored fields, a term query with scores, and a filter+sort+aggregation request over fast fields.",
+    "xor_masks" => masks(quick),
+    "worlds" => world_stats,
+    "outcome_counts" => oc,
+    "failure_classes" => failure_classes.lock().clone(),
+    "distinct_observed_outcomes" => distinct.len(),
+    "cap_hit" => if to { Some(format!("wall budget {deadline}s")) } else { None },
+    "exhaustive" => !to,
+  };
+  rep.finish(
+    cov,
+    vec![
+      "an Err from open, reader() or any probe search counts as detection, whatever the message".into(),
+      "corruptions of fields that no probe can observe (uuid, committed_at, checksum-map keys) are accepted when all probe results are identical".into(),
+      "single-file corruptions only; multi-byte edits other than truncation are not enumerated".into(),
+      "for wal.log an Err from last_pending_ops / writer() / commit is accepted; otherwise the recovered operations must be a prefix of the logged ones and the committed result must equal that of an intact prefix".into(),
+    ],
+  )
 }
